@@ -400,7 +400,7 @@ def text_input_bytes(raw_bytes: bytes):
 # Operations
 # ----------------------------------------------------------------------------------------
 
-def read_all(model: PyModel, proto: M.Protocol, fmt: str, stream, batch_hint=None, collect=False):
+def read_all(model: PyModel, proto: M.Protocol, fmt: str, stream, batch_hint=None, collect=False, lenient=False):
     """Drive the generated reader over every step in order.  Returns (delivered, error, closed):
     delivered = [(step index, neutral value)], error = exception or None, closed = close() succeeded.
     collect=True keeps all items of a stream step (`items = list(reader.read_x())`) and only looks at them
@@ -408,7 +408,9 @@ def read_all(model: PyModel, proto: M.Protocol, fmt: str, stream, batch_hint=Non
     delivered = []
     ns = model.pkg.namespace
     try:
-        reader = model.cls(proto, fmt, "Reader")(stream)
+        # (lenient: the documented reader option skip_completed_check=True - close() then does not insist that every step was
+        #  read, so what a cut stream lacks has to be reported by the reads themselves)
+        reader = model.cls(proto, fmt, "Reader")(stream, skip_completed_check=True) if lenient else model.cls(proto, fmt, "Reader")(stream)
     except Exception as e:  # noqa
         return delivered, e, False
     try:
